@@ -25,7 +25,7 @@ CLAIM = dict(
           "Refuted with witnesses: a result type inheriting the operand's capacity (legacy resolver eval_t) has no room for a "
           "size-changing view; broadcast_shape's rule for a clipped operand. Tied to the C++ by printing, for 19 operand kinds x 20 view "
           "types x up to 4 admitted run-time shapes, the reported knowledge of operand and view types, the run-time shape/dim/size, and "
-          "the evaluated result (shape + all elements) under both resolvers; the extracted checker gammab decides soundness of every "
+          "the same for broadcasting binary views over 19 x 5 PAIRS of operand kinds (both operand orders) and 3-operand where views with a scalar operand; the evaluated result (shape + all elements) under both resolvers; the extracted checker gammab decides soundness of every "
           "report, the extracted rules must predict the reported knowledge on the modelled views."),
     ref="5.11", technique="Coq proof (abstract interpretation soundness, composition by induction) + two-stage differential correspondence",
     extra="Partial: only the 14 modelled view rules are proved sound for all shapes; other view types (6 here) are checked by the direct "
@@ -40,8 +40,14 @@ ASSUMPTIONS = ["un-modelled view types are covered by the run-time soundness rel
                "the legacy resolver (array::eval(view) without a resolver argument) is a known finding, see known_findings"]
 
 
+K2 = ["fixed", "ndarray_fs_db", "ndarray_hs_hb", "ndarray_ds_db", "ndarray_ls_fb"]
+BINOP = {0: "add_ab", 1: "add_ba", 2: "multiply_ab"}
+WHERE = {0: "where_c3_scalar_y53", 1: "where_c3_y53_scalar", 2: "where_c53_x3_scalar", 3: "where_c3_x3_y53"}
+
+
 def drivers(tier):
-    return {"c11": [("c11.cpp", "debug", ("-O0", "-DKPART=%d" % p, "-DNKPART=%d" % NKPART)) for p in range(NKPART)]}
+    return {"c11": [("c11.cpp", "debug", ("-O0", "-DKPART=%d" % p, "-DNKPART=%d" % NKPART)) for p in range(NKPART)],
+            "c11b": [("c11_bin.cpp", "debug", ("-O0", "-DKPART=%d" % p, "-DNKPART=%d" % NKPART)) for p in range(NKPART)]}
 
 
 def gen_cases(rng, tier):
@@ -50,6 +56,11 @@ def gen_cases(rng, tier):
         for op in OPS:
             for v in (0, 1, 2, 3):
                 out.append(("kinds", "kn S:%s I:%d I:%d" % (k, op, v), "c11"))
+    # views over two operand kinds (a: shape (1,3) with a broadcast axis, b: shape (4,3)) and 3-operand where with a scalar
+    for k in KINDS:
+        for k2 in K2:
+            for op in BINOP: out.append(("kind-pairs", "kb S:%s S:%s I:%d" % (k, k2, op), "c11b"))
+        for v in WHERE: out.append(("where", "kw S:%s I:%d" % (k, v), "c11b"))
     return out
 
 
@@ -61,7 +72,8 @@ def distribution(streams):
     kinds = Counter(); ops = Counter()
     for _, line, _ in streams:
         t = line.split(" ")
-        kinds[t[1][2:]] += 1; ops[OPNAME[int(t[2][2:])]] += 1
+        kinds[t[1][2:]] += 1
+        ops[OPNAME[int(t[2][2:])] if t[0] == "kn" else (BINOP[int(t[3][2:])] if t[0] == "kb" else WHERE[int(t[2][2:])])] += 1
     return {"operand_kind": dict(kinds), "view": dict(ops)}
 
 
@@ -75,9 +87,13 @@ def classify(line, impl, spec, model):
     if len(fi) != len(fs) or len(fi) < 6: return None
     diff = [i for i in range(len(fi)) if " ".join(fi[i].split()) != " ".join(fs[i].split())]
     t = line.split(" ")
-    if diff == [1] and t[1] == "S:nested_arr" and fi[1].endswith("size=2"):
-        return "size-accessor-nested-std-array"
+    if diff == [1] and t[1] == "S:nested_arr":
+        m = re.match(r"art=(\d+)(?:,[\d,]*)? dim=\d+ size=(\d+)$", " ".join(fi[1].split()))
+        if m and m.group(1) == m.group(2):        # nmtools::size() returned the OUTER extent of the nested std::array
+            return "size-accessor-nested-std-array"
     if diff == [len(fi) - 1] and fi[-1].startswith("old="):
         t = line.split(" ")
+        if t[0] == "kb": return "legacy-eval_t-no-room:%s:%s:%s" % (t[1][2:], BINOP[int(t[3][2:])], t[2][2:])
+        if t[0] == "kw": return "legacy-eval_t-no-room:%s:%s" % (t[1][2:], WHERE[int(t[2][2:])])
         return "legacy-eval_t-no-room:%s:%s" % (t[1][2:], OPNAME[int(t[2][2:])])
     return None
